@@ -200,7 +200,7 @@ func (vc *VC) initHeap(name, sort string, epoch int) string {
 	n := fmt.Sprintf("%s!h%d_%d", sanitizeSym(name), vc.id, epoch)
 	if _, ok := vc.eng.syms.syms[n]; !ok {
 		bound := ""
-		if epoch == 0 {
+		if epoch == 0 && os.Getenv("GOVC_NOBOUND") == "" {
 			bound = vc.next0
 		}
 		vc.eng.syms.add(n, fmt.Sprintf("(declare-fun %s () %s)", n, sort)+nilMapAxiom(name, n, sort)+vc.eng.heapWellTypedBound(name, n, bound))
@@ -438,6 +438,11 @@ func (vc *VC) oblige(s *State, kind, goal string, pos token.Pos, desc string) *O
 		o.KF = ex.kf
 	}
 	vc.obls = append(vc.obls, o)
+	if len(vc.stale) > 0 && strings.HasPrefix(kind, "post") {
+		// bounded fallback: quantified postconditions assumed for later obligations would keep the solvers from
+		// returning the model that the fallback needs in order to report anything
+		return o
+	}
 	s.assume(goal)
 	return o
 }
